@@ -26,7 +26,7 @@ package gcsca
 //@ func (*CertificateAuthority).upload
 //@   requires ca != nil && ca.Storage != nil && manifest != nil
 //@   requires[C11] forall(i, 0 <= i && i < len(manifest.Entries) ==> manifest.Entries[i] != nil && diskHas[manifest.Entries[i].ObjectPath] && manifest.Entries[i].ObjectPath != "keyManifest.textproto")
-//@   assigns manifest.Entries, manifest.Entries[*]
+//@   assigns manifest.Entries, manifest.Entries[*cap]
 //@   modifies diskHas, wroteAfterManifest, manifestWrites, objWrites, curObj, wroteFull, clobbers, diskData
 //@   ensures[C11] forall(i, 0 <= i && i < len(manifest.Entries) ==> manifest.Entries[i] != nil && diskHas[manifest.Entries[i].ObjectPath] && manifest.Entries[i].ObjectPath != "keyManifest.textproto")
 //@   ensures[C11] forall(o, string, old(diskHas)[o] ==> diskHas[o])
